@@ -297,7 +297,7 @@ func (o *op16) String() string {
 	case "wrong-shape":
 		return "Recompose(wrong shape) into " + typeLabel(o.Type)
 	}
-	return fmt.Sprintf("%s %s value=%+v", []string{"alt.Recompose(alt.Decompose(v))", "oj.Unmarshal(oj.Marshal(v))", "sen.Unmarshal(sen.Bytes(v))"}[o.Route], typeLabel(o.Type), o.Value.Interface())
+	return fmt.Sprintf("%s %s value=%s", []string{"alt.Recompose(alt.Decompose(v))", "oj.Unmarshal(oj.Marshal(v))", "sen.Unmarshal(sen.Bytes(v))"}[o.Route], typeLabel(o.Type), derefAll(o.Value))
 }
 
 func drawOp16(t *rapid.T) *op16 {
